@@ -117,7 +117,7 @@ PropBase == [pp |-> "ok", h |-> "cur", r |-> "cur", pt |-> "ok", pol |-> "none",
 PropMsgs(s) == AllOf("Proposal", PropBase, PropCls(s)) \cup PeerSingles("Proposal", PropBase, PropCls(s))
                \cup (IF Pairwise THEN Pairs("Proposal", PropBase, PropCls(s)) ELSE {})
 
-PartCls == [pa |-> {"nil"}, h |-> HCls, r |-> RCls, pi |-> {"neg1", "neg64", "total", "huge"}, pf |-> {"bad", "empty"},
+PartCls == [pa |-> {"nil"}, h |-> HCls, r |-> RCls, pi |-> {"neg1", "neg64", "total", "huge"}, pf |-> {"bad"},
             pb |-> {"garbage"}, blk |-> {"y"}]
 PartBase == [pa |-> "ok", h |-> "cur", r |-> "cur", pi |-> "ok", pf |-> "ok", pb |-> "ok", blk |-> "x"]
 PartMsgs == AllOf("BlockPart", PartBase, PartCls) \cup PeerSingles("BlockPart", PartBase, PartCls)
@@ -202,7 +202,8 @@ Disconnects(s, sn, m) ==
   LET f == m.f
       fast == sn = "FastSync" /\ m.ch \in {"data", "vote", "bits"}     \* "Ignoring message received during fastSync"
   IN
-  IF m.t = "Raw" THEN f.kind = "empty"                                  \* DecodeMessage: bz[0]
+  IF m.ch = "unknown" THEN TRUE                                         \* MConnection.recvRoutine: PanicQ("Unknown channel"), before any reactor
+  ELSE IF m.t = "Raw" THEN f.kind = "empty"                             \* DecodeMessage: bz[0]
   ELSE IF m.ch # Chan(m.t) \/ fast THEN FALSE                           \* unknown type for that channel / ignored
   ELSE CASE
        m.t = "Vote" ->
@@ -272,7 +273,42 @@ Input(m, o) ==
   /\ act' = <<"Input", m, o>>
   /\ UNCHANGED <<net, byzUsed, crashes, sit>>
 
+(* The other reactors a peer can talk to.  Their Receive functions touch no consensus state; the table transcribes    *)
+(* blockchain/reactor.go + pool.go (fast sync, poolRoutine running; "requested-*": the pool asked this peer for blocks *)
+(* 1 and 2 and gets block 1 / block 2 damaged as named), mempool/reactor.go, p2p/pex_reactor.go + addrbook.go.         *)
+(* Accept = the reactor's own state changes as intended (blocks executed / tx pooled / address booked).               *)
+OtherPlan == {
+  <<"bc", "status-ok", "Drop">>, <<"bc", "status-zero", "Drop">>, <<"bc", "status-neg", "Drop">>, <<"bc", "status-huge", "Drop">>,
+  <<"bc", "statusreq", "Drop">>, <<"bc", "blockreq-unknown", "Drop">>, <<"bc", "blockreq-huge", "Drop">>,
+  <<"bc", "blockreq-zero", "Disconnect">>, <<"bc", "blockreq-neg", "Disconnect">>,        \* archive.QueryFileHash: /Threshold (0 by default)
+  <<"bc", "raw-empty", "Disconnect">>, <<"bc", "raw-unknowntype", "Drop">>, <<"bc", "raw-truncated", "Drop">>,
+  <<"bc", "resp-unsolicited-nil", "Disconnect">>, <<"bc", "resp-unsolicited-nil-header", "Disconnect">>,   \* pool.AddBlock: block.Height
+  <<"bc", "resp-unsolicited-valid", "Drop">>,
+  <<"bc", "requested-nil", "Disconnect">>, <<"bc", "requested-nil-header", "Disconnect">>,
+  <<"bc", "requested-nil-data", "Drop">>, <<"bc", "requested-nil-lastcommit", "Drop">>, <<"bc", "requested-wrong-height", "Drop">>,
+  <<"bc", "requested-second-nil-lastcommit", "Drop">>, <<"bc", "requested-second-commit-nil-entries", "Drop">>,
+  <<"bc", "requested-second-commit-empty", "Drop">>, <<"bc", "requested-second-commit-short", "Drop">>,
+  <<"bc", "requested-second-commit-bad-vote", "Drop">>, <<"bc", "requested-second-commit-neg-height", "Drop">>,
+  <<"bc", "requested-second-nil-data", "Accept">>,          \* block 2's LastCommit is what verifies block 1
+  <<"bc", "requested-valid", "Accept">>,
+  <<"mempool", "tx-small", "Accept">>, <<"mempool", "tx-empty", "Accept">>, <<"mempool", "tx-big", "Accept">>,
+  <<"mempool", "tx-over-limit", "Drop">>, <<"mempool", "tx-length-lie", "Drop">>, <<"mempool", "tx-neg-length", "Drop">>,
+  <<"mempool", "tx-duplicate", "Drop">>, <<"mempool", "raw-empty", "Disconnect">>, <<"mempool", "raw-unknowntype", "Drop">>,
+  <<"mempool", "raw-nilmsg", "Drop">>,
+  <<"pex", "request", "Drop">>, <<"pex", "addrs-ok", "Accept">>, <<"pex", "addrs-empty", "Drop">>,
+  <<"pex", "addrs-nil-entry", "Disconnect">>,               \* AddrBook.addAddress: addr.Routable() on nil
+  <<"pex", "addrs-empty-ip", "Accept">>, <<"pex", "addrs-odd-ip", "Accept">>, <<"pex", "addrs-port-zero", "Accept">>,
+  <<"pex", "addrs-loopback", "Drop">>, <<"pex", "addrs-many", "Accept">>, <<"pex", "addrs-count-lie", "Drop">>,
+  <<"pex", "addrs-neg-count", "Drop">>, <<"pex", "raw-empty", "Disconnect">>, <<"pex", "raw-unknowntype", "Drop">> }
+
+Other(x) ==
+  /\ phase = "boot"
+  /\ sit' = "other" /\ phase' = "done"
+  /\ act' = <<"Other", x[1], x[2], x[3]>>
+  /\ UNCHANGED <<node, net, byzUsed, crashes>>
+
 Next0 ==
+  \/ phase = "boot"  /\ \E x \in OtherPlan : Other(x)
   \/ phase = "boot"  /\ \E sn \in Sits : Setup(sn)
   \/ phase = "ready" /\ \E m \in Msgs(node[T]) : Input(m, Outcome(node[T], sit, m))
 
@@ -283,7 +319,9 @@ PSpec == Init0 /\ [][Next0]_pvars
 
 \* every (situation, class) has exactly one outcome of the three (evaluating Outcome for all classes in every situation
 \* also shows that no CASE of the transcription is left without an arm)
-Totality == phase = "ready" => \A m \in Msgs(node[T]) : Outcome(node[T], sit, m) \in Outcomes
+Totality ==
+  /\ phase = "ready" => \A m \in Msgs(node[T]) : Outcome(node[T], sit, m) \in Outcomes
+  /\ \A x \in OtherPlan : x[3] \in Outcomes /\ \A y \in OtherPlan : (x[1] = y[1] /\ x[2] = y[2]) => x[3] = y[3]
 
 \* whatever is not accepted leaves the consensus state exactly as it was
 InvalidLeavesStateUnchanged ==
@@ -292,7 +330,7 @@ InvalidLeavesStateUnchanged ==
 \* only messages whose validated fields are all correct are ever accepted, and never through a panic of Receive
 Validated == {"vp", "ty", "ix", "ad", "sg", "pp", "pt", "pa", "pi", "pf", "pb", "ba", "kind", "ch"}
 AcceptOnlyValid ==
-  (phase = "done" /\ act[3] = "Accept") =>
+  (phase = "done" /\ act[1] = "Input" /\ act[3] = "Accept") =>
      /\ \A p \in act[2].d : p[1] \notin Validated
      /\ WellFormed(act[2])
 
@@ -305,5 +343,5 @@ AcceptFollowsTendermint ==
 \* the receiver's own rules are never broken by a single peer message (no panic branch of the transcribed state machine)
 NoPanicBranch == node[T].bad = "ok"
 
-TypeOK0 == sit \in Sits \cup {"boot"} /\ phase \in {"boot", "ready", "done"}
+TypeOK0 == sit \in Sits \cup {"boot", "other"} /\ phase \in {"boot", "ready", "done"}
 =============================================================================
